@@ -778,6 +778,7 @@ func isUnknownSpec(a predOutcome) predOutcome {
 //@ ensures [C13] result-numeric: r1 ==> is[int64](r0) || is[float64](r0)
 //@ ensures [C13] integer-stays-exact: uninterp[bool]("jnIsInt", string(num)) && uninterp[int64]("jnInt", string(num)) != -9223372036854775808 ==> r1 && r0 == any(dynret[int64](intCallback, 0, uninterp[int64]("jnInt", string(num))))
 //@ ensures [C13] fraction-as-float: !uninterp[bool]("jnIsInt", string(num)) && uninterp[bool]("jnIsFloat", string(num)) ==> r1 && r0 == any(dynret[float64](floatCallback, 0, uninterp[float64]("jnFloat", string(num))))
+//@ ensures [C13 C16] integer-callback-only-through-the-guard: ncalls(intCallback) == 0
 
 //@ func (*Executor).execBinaryMathExpr
 //@ props C13
@@ -808,6 +809,7 @@ func isUnknownSpec(a predOutcome) predOutcome {
 //@ ensures [C13 C06 C09] not-found-means-every-item-tried: r0 == statusNotFound && r1 == nil && !(node.Next() == nil && found == nil) ==> ncalls(exec.executeNextItem) == len(seq.list)
 //@ ensures [C06 C13] exists-mode-casts-first: r0 == statusOK && r1 == nil && found == nil && node.Next() == nil && len(seq.list) == 1 && is[json.Number](seq.list[0]) ==> ncalls(castJSONNumber) == 1
 //@ ensures [C06 C13] exists-ok-comes-from-continuation: found == nil && node.Next() != nil && r0 == statusOK ==> ncalls(exec.executeNextItem) >= 1 && callret[resultStatus](exec.executeNextItem, 0) == statusOK
+//@ ensures [C13 C16] integer-callback-only-through-the-guard: ncalls(intCallback) == 0
 
 // ---------------------------------------------------------------------------
 // compare.go: one order per type
@@ -989,6 +991,7 @@ func isUnknownSpec(a predOutcome) predOutcome {
 //@ ensures [C16] float: is[float64](value) ==> ncalls(exec.executeNextItem) == 1 && callarg[any](exec.executeNextItem, "value") == any(dynret[float64](floatCallback, 0, as[float64](value)))
 //@ ensures [C16] domain: !(is[[]any](value) || is[int64](value) || is[float64](value) || is[json.Number](value)) ==> r0 == statusFailed && ncalls(exec.executeNextItem) == 0 && (r1 == nil || errIs(r1, ErrVerbose))
 //@ ensures [C08 C10 C16] refusal-suppressible: ncalls(exec.executeNextItem) == 0 && !(is[[]any](value) && unwrap) ==> r0 == statusFailed && (r1 == nil || errIs(r1, ErrVerbose))
+//@ ensures [C13 C16] integer-callback-only-through-the-guard: ncalls(intCallback) == 0
 
 //@ func (*Executor).executeDecimalMethod
 //@ props C16 C08
